@@ -20,7 +20,10 @@ def obligations(tier):
         obls += [coefs_obl(o, c, mult=m, onehot=v) for o, v in ((1, 1000), (2, 8), (3, 1)) for c in (1, 2) for m in ('0.5', '4.0')]
     obls.append(create_obl(3, timeout=300))
     cfgs = [Cfg(1, 2, LQ, DP, e2e=1), Cfg(1, 2, LQ, DP, e2e=1, scale=0.5), Cfg(1, 2, LQ, DP, e2e=1, scale=4.0), Cfg(2, 1, LQ, DP, e2e=1, scale=4.0),
-            Cfg(3, 2, LQ, DP, e2e=1, scale=0.5), Cfg(4, 1, LQ, DP, e2e=1), Cfg(1, 2, LQ, 0, e2e=1, scale=4.0, env=NOSIMD32)]
+            Cfg(3, 2, LQ, DP, e2e=1, scale=0.5), Cfg(4, 1, LQ, DP, e2e=1), Cfg(1, 2, LQ, 0, e2e=1, scale=4.0, env=NOSIMD32),
+            # the gain on the cubic stage: quick recipe, and equal rates (cubic stage forced in because the gain is not 1)
+            Cfg(1, 2, 0, 0, e2e=1, scale=0.5), Cfg(3, 2, 0, DP, e2e=1, scale=4.0), Cfg(1, 1, HQ, 0, e2e=1, scale=0.5), Cfg(1, 1, LQ, DP, e2e=1, scale=4.0),
+            Cfg(2, 1, 0, 0, e2e=1, scale=0.5, env=NOSIMD32)]
     if tier == 'thorough':
         cfgs += [Cfg(1, 3, MQ, DP, e2e=1, scale=0.25), Cfg(2, 3, HQ, 0, e2e=1, scale=2.0), Cfg(1, 64, LQ, DP, e2e=1, i0=300, scale=0.5), Cfg(8, 1, HQ, DP, e2e=1, scale=2.0)]
     obls += [e2e_obl(c, ('gain',), tier) for c in cfgs]
